@@ -284,6 +284,25 @@ Theorem C14_header_has_object : forall (p : dprog) (h : header),
 Proof. exact header_has_object. Qed.
 Print Assumptions C14_header_has_object.
 
+(* the sections in textual order: the #include line(s) of the class, then the definition of the object
+   with the arguments of its declaration, then "void setup() {", then its initialisation block *)
+Theorem C14_object_defined_before_setup : forall (p : dprog) (pre : list item) (d : lcdd) (post : list item),
+  d_setup p = pre ++ ILcd d :: post ->
+  let k := count_t (l_name d) (top_lcd_names pre) in
+  exists a b c e,
+    lib_sketch p = a ++ [lcd_obj_line d k] ++ b ++ [setup_start] ++ c ++ lcd_init_lines d k ++ e /\
+    (forall h, In h (headers_of (class_of d)) -> In (include_line h) a).
+Proof. exact object_defined_before_setup. Qed.
+Print Assumptions C14_object_defined_before_setup.
+
+Theorem C14_servo_defined_before_setup : forall (p : dprog) (d : servod),
+  In d (servo_decls p) ->
+  exists a b c,
+    lib_sketch p = a ++ [servo_obj_line (s_name d)] ++ b ++ [setup_start] ++ c /\
+    In (include_line HServo) a.
+Proof. exact servo_defined_before_setup. Qed.
+Print Assumptions C14_servo_defined_before_setup.
+
 (* (b) inside the quantifier - displays declared at the top level before the main loop; no command
    before the first declaration of its variable (the parser drops such a line) - every emitted LCD
    command, at any nesting depth of setup(), in loop() and in every function body, addresses the
